@@ -9,7 +9,8 @@
   each once.  Everything below holds for EVERY environment and EVERY number of lanelets / obstacles / time steps (no bound).
   Histories: the theorems of the section "ALL histories" hold for every sequence of operations whatsoever; the EXACT inverse
   (`Inverse`, names ending in `_partial`) holds for every sequence without `use_center_only=True` — after such a call the
-  registries list the centre lanelets by the documented purpose of the flag, `C07_witness_center_only` is the counterexample.  What is not proved here: that the lookups agree with the geometry (GEOS is not modelled; the
+  registries list the centre lanelets by the documented purpose of the flag, `C07_witness_center_only` is the counterexample;
+  `C07_registry_bounds_run` and `C07_remove_clears` say what holds then.  What is not proved here: that the lookups agree with the geometry (GEOS is not modelled; the
   harness oracle checks that by brute force on every run), and the state after a Python exception.
 -/
 import CRProofs.AssignWeak
@@ -140,31 +141,6 @@ theorem C07_registry_exact_after_assign {E : Env} {s s' : St} (hi : Inv E s)
       obtain ⟨a1, _⟩ := ha o (List.mem_append.mpr (Or.inl (e2 ▸ h1))) (E.t0 o) (Or.inl rfl)
       exact ⟨h1, _, (a1 rfl).2, h2⟩
 
-/-- in a state with the exact invariant, after `remove_obstacle` the obstacle is gone from the scenario and from every registry
-    (after a centre-only assignment it is not: `C07_witness_remove_after_center_only`) -/
-theorem C07_remove_clears {E : Env} {s s' : St} {o : Id} (hw : WfEnv E) (hi : Inv E s) (h : remove E s o = .ok s') :
-    o ∉ s'.statics ∧ o ∉ s'.dynamics ∧ (∀ l, o ∉ s'.sreg l) ∧ ∀ l t, ¬ memD s'.dreg l t o := by
-  have hi' := inv_remove hw hi h
-  have hgone : o ∉ s'.statics ∧ o ∉ s'.dynamics := by
-    unfold remove at h
-    split at h
-    · next hos =>
-      obtain ⟨r, _, h⟩ := bind_ok.mp h
-      cases pure_ok.mp h
-      refine ⟨by simp [List.mem_filter], fun hd => hi.kindD o hd (hi.kindS o hos)⟩
-    · next hos =>
-      split at h
-      · split at h
-        · cases h; exact ⟨hos, by simp [List.mem_filter]⟩
-        · obtain ⟨r1, _, h⟩ := bind_ok.mp h
-          obtain ⟨r2, _, h⟩ := bind_ok.mp h
-          cases pure_ok.mp h
-          exact ⟨hos, by simp [List.mem_filter]⟩
-      · next hod => cases h; exact ⟨hos, hod⟩
-  refine ⟨hgone.1, hgone.2, fun l hl => ?_, fun l t hm => ?_⟩
-  · exact hgone.1 ((hi'.invS l o).mp hl).2.1
-  · exact hgone.2 ((hi'.invD l t o).mp hm).2.1
-
 /-! ## ALL histories — `use_center_only=True`, partial id / time-step lists and re-reads included -/
 
 /-- the invariant of all histories (`WeakInv`): every recorded centre and shape set is a lookup answer of a time step of the
@@ -239,16 +215,96 @@ theorem C07_witness_center_only : ¬ C07_inverse_run_full := by
   obtain ⟨_, ids, h4, _⟩ := ((hfull E hw _ s h1).1 1 30).mp h2
   rw [h3] at h4; cases h4
 
-/-- KNOWN FINDING (C07/remove_obstacle/registry-lists-removed-obstacle/center-only): after a centre-only assignment
-    `remove_obstacle` succeeds but leaves the obstacle listed on its centre lanelets — `_remove_*_obstacle_from_lanelets` clean
-    the SHAPE lanelets only.  "Removing obstacles keeps registries consistent" fails on this history; the obstacle is listed on
-    lanelet 1 and is not in the scenario.  Replayed on the real code (same corpus case); proposed_fixes/C07_remove_center_lanelets.patch. -/
-theorem C07_witness_remove_after_center_only :
-    ∃ (E : Env) (s : St), WfEnv E ∧ run E St.init [.add 30, .assign none none true, .remove 30] = .ok s ∧
-      (30 : Id) ∈ s.sreg 1 ∧ (30 : Id) ∉ s.statics := by
-  refine ⟨{ lanelets := [1], kind := fun _ => .static, t0 := fun _ => 0, len := fun _ => 0,
-            cen := fun _ _ => [1], shp := fun _ _ => [1] }, _,
-    ⟨fun _ _ l h => h, fun _ _ => (by simp : ([1] : List Id).Nodup), fun _ _ l h => h, fun _ _ => (by simp : ([1] : List Id).Nodup)⟩, rfl, by decide, by decide⟩
+/-- FIXED (680e9aa "fix: remove_obstacle also unregisters the obstacle from its center lanelets"; found by this audit as
+    C07/remove_obstacle/registry-lists-removed-obstacle/center-only): on the history of `C07_witness_center_only` followed by
+    `remove_obstacle` the repaired code leaves no trace of the obstacle — regression corpus/C07/center_only_then_remove.json;
+    the general statement is `C07_remove_clears`. -/
+example : ((run { lanelets := [1], kind := fun _ => .static, t0 := fun _ => 0, len := fun _ => 0,
+                  cen := fun _ _ => [1], shp := fun _ _ => [1] } St.init
+      [.add 30, .assign none none true, .remove 30]).toOption.map fun s => (s.sreg 1, s.statics)) =
+    some (([] : List Int), ([] : List Int)) := by rfl
+
+/-- the invariant of all histories, second half (`SubInv`): whatever a lanelet lists is an obstacle OF THE SCENARIO whose
+    recorded shape set or recorded centre set (at that time step) holds the lanelet -/
+theorem C07_sub_inv_run {E : Env} (hw : WfEnv E) : ∀ (ops : List Op) (s s' : St), WeakInv E s → SubInv E s →
+    run E s ops = .ok s' → SubInv E s' := by
+  intro ops
+  induction ops with
+  | nil =>
+    intro s s' _ hi h
+    simp only [run, List.foldlM_nil, pure_ok] at h
+    exact h ▸ hi
+  | cons op ops ih =>
+    intro s s' hwk hi h
+    simp only [run, List.foldlM_cons] at h
+    obtain ⟨s1, h1, h2⟩ := bind_ok.mp h
+    refine ih s1 s' (C07_weak_inv_step hw hwk h1) ?_ h2
+    cases op with
+    | add o => exact sub_add hi hwk.base h1
+    | remove o => exact sub_remove hw hi hwk.base h1
+    | assign ids ts co => exact sub_assign hi hwk h1
+    | reopenXml => exact sub_of_inv (inv_reopenXml hw hwk.base h1).1
+    | reopenPb => exact sub_of_inv (inv_reopenPb hw hwk.base h1).1
+
+/-- **the registries after EVERY history, both inclusions**: recorded shape relation of the scenario's obstacles ⊆ registries ⊆
+    recorded shape ∪ recorded centre relation of the scenario's obstacles.  Without centre-only calls the two bounds coincide
+    (`C07_inverse_run_partial`). -/
+theorem C07_registry_bounds_run {E : Env} (hw : WfEnv E) (ops : List Op) (s : St) (h : run E St.init ops = .ok s) :
+    (∀ l o, (o ∈ s.statics ∧ RecShapeS (s.fwd o) l → o ∈ s.sreg l) ∧
+            (o ∈ s.sreg l → o ∈ s.statics ∧ (RecShapeS (s.fwd o) l ∨ RecCenS (s.fwd o) l))) ∧
+    (∀ l t o, (o ∈ s.dynamics ∧ RecShapeD E (s.fwd o) o t l → memD s.dreg l t o) ∧
+              (memD s.dreg l t o → o ∈ s.dynamics ∧ (RecShapeD E (s.fwd o) o t l ∨ RecCenD E (s.fwd o) o t l))) := by
+  have h1 := C07_weak_inv_run hw ops St.init s (weak_init E) h
+  have h2 := C07_sub_inv_run hw ops St.init s (weak_init E) (sub_init E) h
+  exact ⟨fun l o => ⟨fun hx => h1.supS l o hx.1 hx.2, h2.subS l o⟩, fun l t o => ⟨fun hx => h1.supD l t o hx.1 hx.2, h2.subD l t o⟩⟩
+
+/-- **remove_clears**, ALL histories (centre-only assignments included): in every state reached by any sequence of operations
+    `remove_obstacle(o)` returns a state in which `o` is in neither obstacle dict and is listed by NO lanelet, neither as a
+    static obstacle nor at any time step — and no other obstacle leaves the scenario -/
+theorem C07_remove_clears {E : Env} (hw : WfEnv E) (ops : List Op) (s : St) (h : run E St.init ops = .ok s) (o : Id) :
+    ∃ s', remove E s o = .ok s' ∧ o ∉ s'.statics ∧ o ∉ s'.dynamics ∧ (∀ l, o ∉ s'.sreg l) ∧ (∀ l t, ¬ memD s'.dreg l t o) ∧
+      (∀ x, x ≠ o → (x ∈ s'.statics ↔ x ∈ s.statics) ∧ (x ∈ s'.dynamics ↔ x ∈ s.dynamics)) := by
+  have h1 := C07_weak_inv_run hw ops St.init s (weak_init E) h
+  have h2 := C07_sub_inv_run hw ops St.init s (weak_init E) (sub_init E) h
+  obtain ⟨s', hr⟩ := remove_total_weak hw h1 o
+  have h3 := sub_remove hw h2 h1.base hr
+  have hlists : s'.statics = (if o ∈ s.statics then s.statics.filter (· ≠ o) else s.statics) ∧
+      s'.dynamics = (if o ∈ s.statics then s.dynamics else if o ∈ s.dynamics then s.dynamics.filter (· ≠ o) else s.dynamics) := by
+    unfold remove at hr
+    split at hr
+    · next hos => cases hr; simp [hos]
+    · next hos =>
+      split at hr
+      · next hod =>
+        split at hr
+        · cases hr; simp [hos, hod]
+        · obtain ⟨r1, _, hr⟩ := bind_ok.mp hr
+          obtain ⟨r2, _, hr⟩ := bind_ok.mp hr
+          cases pure_ok.mp hr
+          simp [hos, hod]
+      · next hod => cases hr; simp [hos, hod]
+  have hgone : o ∉ s'.statics ∧ o ∉ s'.dynamics := by
+    rw [hlists.1, hlists.2]
+    by_cases hos : o ∈ s.statics
+    · rw [if_pos hos, if_pos hos]
+      exact ⟨by simp [List.mem_filter], fun hd => h1.base.kindD o hd (h1.base.kindS o hos)⟩
+    · by_cases hod : o ∈ s.dynamics
+      · rw [if_neg hos, if_neg hos, if_pos hod]
+        exact ⟨hos, by simp [List.mem_filter]⟩
+      · rw [if_neg hos, if_neg hos, if_neg hod]
+        exact ⟨hos, hod⟩
+  refine ⟨s', hr, hgone.1, hgone.2, fun l hl => hgone.1 (h3.subS l o hl).1, fun l t hm => hgone.2 (h3.subD l t o hm).1, ?_⟩
+  intro x hx
+  rw [hlists.1, hlists.2]
+  constructor
+  · split
+    · simp [List.mem_filter, hx]
+    · rfl
+  · split
+    · rfl
+    · split
+      · simp [List.mem_filter, hx]
+      · rfl
 
 /-- **remove_total**, ALL histories: in every state reached by any sequence of operations, `remove_obstacle` returns
     normally — for an obstacle of the scenario (no KeyError from `set.remove` / `dict[t]`, also after centre-only
